@@ -147,6 +147,28 @@ def run(ctx):
         argsok = all(a == ("extra",) and k == {"key": 5} for s, x, a, k in LOG)
         return [st.sid for st in m.steps], oks, out, calls, argsok
 
+    # the list handed to SequentialModel stays the caller's: two pipelines declared from one list, and later edits of that list
+    for trial in range(6):
+        lst = [stages[7], stages[8]] if trial % 2 == 0 else [stages[0], stages[1], stages[2]]
+        declared = [st.sid for st in lst]
+        a_ = SequentialModel(lst)
+        b_ = SequentialModel(lst)
+        if trial % 3 == 0:
+            a_.add_step(stages[1])
+        elif trial % 3 == 1:
+            a_.remove_step(0)
+        else:
+            lst.append(stages[2])
+            lst.reverse()
+        LOG.clear()
+        b_([], "extra", key=5)
+        ran = [s_ for s_, x_, a__, k_ in LOG]
+        ctx.count("shared-list-cases")
+        if ran != declared or [st.sid for st in b_.steps] != declared:
+            ctx.violation("C17/SequentialModel/declared-order-shared-list", "a pipeline declared with stages %s runs %s after %s" % (
+                declared, ran, ["add_step on another pipeline built from the same list", "remove_step on another pipeline built from the same list", "the caller edited its own list"][trial % 3]), {"declared": declared, "ran": ran})
+            break
+
     def ref_seq(init, h):
         steps = list(init or [])
         oks = []
